@@ -250,7 +250,8 @@ impl Recipe {
             }
             Arr::Padded(head, eighths) => {
                 // symbol 0 of `counts` is the most frequent one for every skewed profile
-                let pad = counts[0] * (eighths.clamp(1, 8) as usize) / 8;
+                // eighths = 9: everything but about one occurrence in a thousand
+                let pad = if eighths >= 9 { counts[0] - counts[0] / 1000 - counts[0].min(1) } else { counts[0] * (eighths.clamp(1, 8) as usize) / 8 };
                 let mut rest: Vec<u128> = Vec::with_capacity(self.n);
                 rest.extend(std::iter::repeat(sym(0)).take(counts[0] - pad));
                 for j in 1..d {
@@ -383,7 +384,7 @@ fn arrangement() -> BoxedStrategy<Arr> {
         2 => (0u8..=12).prop_map(Arr::Runs),
         1 => Just(Arr::Periodic),
         1 => Just(Arr::Packed),
-        2 => (any::<bool>(), 1u8..=8).prop_map(|(h, k)| Arr::Padded(h, k)),
+        2 => (any::<bool>(), 1u8..=9).prop_map(|(h, k)| Arr::Padded(h, k)),
         2 => (8u8..=13).prop_map(Arr::RunsPow2),
     ]
     .boxed()
